@@ -22,6 +22,23 @@ fn main() {
                 println!("{} {} {} {}", s, rotation.to_bits(), rotation.sin().to_bits(), rotation.cos().to_bits());
             }
         }
+        Some("sinf") => {
+            // sinf <f32 bits>... -> bits of x.sin() and x.cos() as this platform's f32 implementation returns them
+            for s in &a[2..] {
+                let x = f32::from_bits(s.parse::<u32>().unwrap());
+                println!("{} {} {}", s, x.sin().to_bits(), x.cos().to_bits());
+            }
+        }
+        Some("dist3") | Some("dist2") | Some("within") => {
+            let v: Vec<f32> = a[2..].iter().map(|s| f32::from_bits(s.parse::<u32>().unwrap())).collect();
+            use wow_world_base::shared::vector3d_vanilla_tbc_wrath::Vector3d;
+            use wow_world_base::shared::vector2d_vanilla_tbc_wrath::Vector2d;
+            match a[1].as_str() {
+                "dist3" => println!("{:e}", wow_world_base::geometry::distance_between(Vector3d { x: v[0], y: v[1], z: v[2] }, Vector3d { x: v[3], y: v[4], z: v[5] })),
+                "dist2" => println!("{:e}", wow_world_base::geometry::distance_2d(Vector2d { x: v[0], y: v[1] }, Vector2d { x: v[2], y: v[3] })),
+                _ => println!("{}", wow_world_base::geometry::is_within_distance(Vector3d { x: v[0], y: v[1], z: v[2] }, Vector3d { x: v[3], y: v[4], z: v[5] }, v[6])),
+            }
+        }
         Some("square") => {
             // square px py pz sx sy sz length width height yaw   (all f32 bits)
             let v: Vec<f32> = a[2..].iter().map(|s| f32::from_bits(s.parse::<u32>().unwrap())).collect();
